@@ -580,19 +580,23 @@ values and slot variables of the place where it was written -/
 def fillerEnter (cl : Closure) (s : RState) : RState :=
   let fr : Frame := { cache := cl.cache, domain := cl.domain, context := cl.context, targetLang := cl.targetLang,
                       slotFns := cl.slotFns }
-  { s with env := { s.env with root := s.env.rootDict, hasRoot := true, frames := fr :: s.env.frames } }
+  { s with env := { s.env with root := s.env.rootDict, hasRoot := true, frames := fr :: s.env.frames },
+           x := { s.x with token := none } }
 
-/-- back in the macro: the filler's scope is gone, its `__token` was its own local variable; the macro's scope is
-updated with the global definitions (`econtext.update(rcontext)`, after the D-09c fix) -/
+/-- back in the macro: the filler's scope is gone, its `__token` was its own local variable (the macro set its own to
+`None` before the call, after the D-12d fix); the macro's scope is updated with the global definitions
+(`econtext.update(rcontext)`, after the D-09c fix) -/
 def fillerLeave (s s' : RState) : RState :=
   { s' with env := { s.env with rcontext := s'.env.rcontext, repeats := s'.env.repeats,
                                  own := updateOwn s.env.own s'.env.rcontext },
-            x := { s'.x with token := s.x.token } }
+            x := { s'.x with token := none } }
 
-/-- … after the filler raised: no update -/
+/-- … after the filler raised: its handler records `__tokens[__token]` (when a token is set) and re-raises (after the
+D-12d fix: before it the filler had no handler and the macro recorded its own last expression); no update -/
 def fillerRaise (s s' : RState) : RState :=
   { s' with env := { s.env with rcontext := s'.env.rcontext, repeats := s'.env.repeats },
-            x := { s'.x with token := s.x.token } }
+            x := { s'.x with token := none },
+            errs := match s'.x.token with | some t => s'.errs.push t | none => s'.errs }
 
 /-- the `i18n:name`s a translation collects at compile time (`Compiler._translations[-1]`): those of its body that
 are not inside a nested translation, in the order the compiler visits them -/
@@ -742,7 +746,9 @@ def eval (cfg : ECfg) (al : List (Str × Val)) : Nat → Node → RM Unit
         if !isSubclass cfg ex.cls ["Exception"] then .raised ex s'
         else match onErrorHandle cfg key depth savedLen ex s' with
           | none => .unsupported "on-error with __token None"
-          | some s2 => eval cfg al f fallback { s2 with tmaps := s2.tmaps.drop (s2.tmaps.length - s.tmaps.length) }
+          -- the records of the handled failure are dropped (after the D-12b fix)
+          | some s2 => eval cfg al f fallback { s2 with tmaps := s2.tmaps.drop (s2.tmaps.length - s.tmaps.length),
+                                                        errs := s2.errs.extract 0 s.errs.size }
     | .translate _ msgid node => do
       let names := (namesOf 64 node).eraseDups
       mModify (fun s => { s with tmaps := names.map (fun n => (n, [])) :: s.tmaps })
